@@ -236,7 +236,7 @@ def c15_build(ctx, ok, msg, proofs_ok):
         ctx.note('diff_translator', 'refused: ' + msg[-300:])
         ctx.cov['discharged'] = 0
     n = ctx.n(60, 600) if ok and proofs_ok else 600
-    cases = [{'seed': '%d:%d' % (ctx.seed, i), 'nalg': 5 + i % 4,
+    cases = [{'seed': '%d:%d' % (ctx.seed, i), 'nalg': 5 + i % 4, 'prior': i % 2 == 1,
               'mode': 'mixed' if i % 10 else ('none' if i % 20 else 'all')} for i in range(n)]
     out = ctx.harness('drive_build.py', {'cases': cases})
     results = out['cases']
@@ -249,6 +249,13 @@ def c15_build(ctx, ok, msg, proofs_ok):
         if 0 < len(exp) < n_nodes:
             nontriv.append(('build', cs['seed']))
         # oracle on the implementation: scheduled exactly the changed ones
+        if r['obs'].get('foreign'):
+            ctx.violation('build-not-exact', {'node': 'foreign'},
+                          'after build the queue holds %s, which are not nodes of the tree that build made '
+                          '(before: running %s)' % (r['obs']['foreign'], (r.get('prior') or {}).get('running')),
+                          {'source': 'oracle', 'desc': r['desc'], 'latest': r['latest'],
+                           'previous': r['previous'], 'prior': r.get('prior'), 'theorem': 'C15_build_exact'})
+            bad = True
         for y in range(n_nodes):
             want = ([0] if g['nodes'][y]['fac'] == 1 else list(range(1, len(g['tnames'])))) if y in exp else []
             if r['obs']['nodes'][y][0] != sorted(want) or r['obs']['nodes'][y][1] or (y in r['obs']['que']) != (y in exp):
@@ -260,6 +267,10 @@ def c15_build(ctx, ok, msg, proofs_ok):
                 bad = True
     ctx.count(evaluations=len(results), nontrivial_keys=nontriv)
     ctx.note('build_cases', len(results))
+    ctx.note('build_cases_from_a_working_pipeline', {
+        'cases': sum(1 for r in results if r.get('prior')),
+        'with_running_jobs': sum(1 for r in results if r.get('prior') and r['prior']['running']),
+        'with_running_jobs_that_have_pending_targets': sum(1 for r in results if r.get('prior') and r['prior']['running_with_todo'])})
     if results:
         ctx.sample({'build_case': {'tags': results[0]['graph']['tags'], 'latest': results[0]['latest'],
                                    'previous': results[0]['previous'], 'queue_after': results[0]['obs']['que']}})
